@@ -4,7 +4,7 @@ From Coq Require Export NArith Lia.
 From Coq Require Import ZifyN ZifyNat ZifyBool.
 
 (** Strings are lists of bytes (unbounded [N]; the models never need the bound). *)
-Definition str := list N.
+Notation str := (list N).
 
 (** What a call into the implementation can do.  [Panic] is a Go run-time panic
     (nil dereference, index out of range); [Hang] is blocking forever. *)
